@@ -2389,6 +2389,7 @@ UNITS = [
     ('RaceA',  [('src/future/race/array.rs', ['Race'])]),
     ('RaceOkA', [('src/future/race_ok/array/mod.rs', ['RaceOk'])]),
     ('JoinT', [('@tuple/join.rs', ['Join'])]),
+    ('TryJoinT', [('@tuple/try_join.rs', ['TryJoin'])]),
     ('WaitF', [('src/future/wait_until.rs', ['State', 'WaitUntil'])]),
     ('WaitS', [('src/stream/wait_until.rs', ['State', 'WaitUntil'])]),
 ]
@@ -2397,7 +2398,7 @@ SKIP_FNS = {('InlineWakerArray', 'new'), ('InlineWakerVec', 'new')}
 GROUPS = {'Std': ['StdArr', 'StdVec'], 'Dir': ['DirArr', 'DirVec'], 'Idx': ['Idx'], 'PS': ['PS'], 'Grp': ['GrpF', 'GrpS'],
           'Fam': ['MergeV', 'RaceV'], 'Fam2': ['JoinV'], 'Fam3': ['TryJoinV'], 'Fam4': ['ZipV'], 'Fam5': ['ChainV'],
           'Arr1': ['JoinA'], 'Arr2': ['TryJoinA'], 'Arr3': ['MergeA'], 'Arr4': ['ZipA'], 'Arr5': ['ChainA'], 'Arr6': ['RaceA'], 'Arr7': ['RaceOkA'], 'Wait': ['WaitF', 'WaitS'],
-          'Tup1': ['JoinT']}
+          'Tup1': ['JoinT'], 'Tup2': ['TryJoinT']}
 GROUP_IMPORTS = {'Std': ['Fc.Kernel'], 'Dir': ['Fc.Kernel'], 'Grp': ['FcGen.KSrcStd', 'FcGen.KSrcPS', 'Fc.RustEnv'],
                  'Fam': ['FcGen.KSrcStd', 'FcGen.KSrcPS', 'FcGen.KSrcIdx', 'Fc.RustEnv'],
                  'Fam2': ['FcGen.KSrcStd', 'FcGen.KSrcPS', 'Fc.RustEnv'],
@@ -2408,10 +2409,10 @@ GROUP_IMPORTS = {'Std': ['Fc.Kernel'], 'Dir': ['Fc.Kernel'], 'Grp': ['FcGen.KSrc
                  'Arr3': ['FcGen.KSrcStd', 'FcGen.KSrcPS', 'FcGen.KSrcIdx', 'Fc.RustEnv'], 'Arr4': ['FcGen.KSrcStd', 'FcGen.KSrcPS', 'Fc.RustEnv'],
                  'Arr5': ['Fc.RustEnv'], 'Arr6': ['FcGen.KSrcIdx', 'Fc.RustEnv'],
                  'Arr7': ['FcGen.KSrcPS', 'Fc.RustEnv'], 'Wait': ['Fc.RustEnv'],
-                 'Tup1': ['FcGen.KSrcStd', 'FcGen.KSrcPS', 'Fc.RustEnv']}
+                 'Tup1': ['FcGen.KSrcStd', 'FcGen.KSrcPS', 'Fc.RustEnv'], 'Tup2': ['FcGen.KSrcStd', 'FcGen.KSrcPS', 'Fc.RustEnv']}
 GROUP_DEPS = {'Grp': ['Std', 'PS'], 'Fam': ['Std', 'PS', 'Idx'], 'GrpPoll': ['Grp'], 'RaceV': ['Fam'], 'MergeV': ['Fam'], 'JoinV': ['Fam2'], 'TryJoinV': ['Fam3'], 'ChainV': ['Fam5', 'Fam4'], 'ZipV': ['Fam4', 'Fam5'], 'Fam2': ['Std', 'PS'], 'Fam3': ['Std', 'PS'], 'Fam4': ['Std', 'PS'], 'Fam5': [],
               'Arr1': ['Std', 'PS'], 'Arr2': ['Std', 'PS'], 'Arr3': ['Std', 'PS', 'Idx'], 'Arr4': ['Std', 'PS'], 'Arr5': [],
-              'Arr6': ['Idx'], 'Arr7': ['PS'], 'Tup1': ['Std', 'PS'],
+              'Arr6': ['Idx'], 'Arr7': ['PS'], 'Tup1': ['Std', 'PS'], 'Tup2': ['Std', 'PS'],
               # the array proofs reuse the container-independent lemmas of the Vec proof of the SAME family (the lemma files
               # import that family's Vec statements, hence its generated file)
               'JoinA': ['Arr1', 'Fam2'], 'TryJoinA': ['Arr2', 'Fam3'], 'MergeA': ['Arr3', 'Fam'], 'ZipA': ['Arr4'],
@@ -2518,6 +2519,7 @@ REQUIRED = {
     'ChainA': ['ChainA.Chain.poll_next'], 'RaceA': ['RaceA.Race.poll'],
     'RaceOkA': ['RaceOkA.RaceOk.poll', 'RaceOkA.RaceOk.drop'],
     'Tup1': ['JoinT.Join.poll', 'JoinT.Join.drop', 'JoinT.Join.new'],
+    'Tup2': ['TryJoinT.TryJoin.poll', 'TryJoinT.TryJoin.drop', 'TryJoinT.TryJoin.new'],
     'JoinVD': ['JoinV.Join.poll', 'JoinV.Join.drop'], 'JoinAD': ['JoinA.Join.poll', 'JoinA.Join.drop', 'JoinA.Join.new'],
     'TryJoinVD': ['TryJoinV.TryJoin.poll', 'TryJoinV.TryJoin.drop'], 'TryJoinAD': ['TryJoinA.TryJoin.poll', 'TryJoinA.TryJoin.drop', 'TryJoinA.TryJoin.new'],
     'MergeVD': ['MergeV.Merge.poll_next'], 'MergeAD': ['MergeA.Merge.poll_next', 'MergeA.Merge.new'],
